@@ -102,4 +102,8 @@ PROPS = {
 PROPS_ARR_RULE = PROPS["C01"]["rule"].split("; C01 reports")[0]
 PROPS["C03"]["rule"] = PROPS_ARR_RULE + "; C03 reports every observable difference between the C-backed and the Go-backed array (values, storage, panics/faults on the guard page, overwritten canaries)"
 PROPS["C03"]["real"] = PROPS["C01"]["real"] + ["libopenwater (C ABI) - see the cabi part of this check"]
-PROPS["C03"]["assumptions"] = PROPS["C01"]["assumptions"]
+PROPS["C03"]["assumptions"] = PROPS["C01"]["assumptions"] + ["C-ABI part: the library's goroutines are free-running (not under the scheduler); the Go-API reference is the one-cell Run of C04"]
+PROPS["C03"]["cabi"] = True
+PROPS["C03"]["quick"]["cabi_runs"] = 400
+PROPS["C03"]["thorough"]["cabi_runs"] = 20000
+PROPS["C03"]["rule"] += "; second part (cabi): each job = one seeded workload (catalogued model, 1-5 cells, parameter sets and input blocks in {1, N, coprime, N+1}, 1-40 timesteps, states passed or initialised by the library, with or without a states buffer) executed by libopenwater.so through the C ABI from a C driver on guard-paged buffers and compared bit for bit with the Go API"
